@@ -1,2 +1,9 @@
-import Blackbird
-#print axioms Blackbird.dictGet
+import Blackbird.Props.C16
+#print axioms Blackbird.C16_nodes_exact
+#print axioms Blackbird.C16_nodes_all
+#print axioms Blackbird.C16_node_attrs
+#print axioms Blackbird.C16_edge_forward
+#print axioms Blackbird.C16_reach_forward
+#print axioms Blackbird.C16_acyclic
+#print axioms Blackbird.C16_reach_iff_chain
+#print axioms Blackbird.C16_topological_keeps_wire_order
